@@ -200,6 +200,12 @@ pub fn c15_case(cfg: &Cfg, rep: &mut Report, case_seed: u64, cli: &str, dir: &Pa
             args.push("--heu".into());
             args.push(h.into());
         }
+        // model counting output (naive and hybrid mode only): one extra first line
+        let counter = lib != "biodivine" && rng.chance(1, 4);
+        if counter {
+            args.push("--counter".into());
+            args.push("nai".into());
+        }
         args.push(file.to_string_lossy().to_string());
         let replay = json!({"property": "c15", "case_seed": case_seed.to_string(), "adf": case.text, "args": args});
         let out = match run_cli(cli, &args, wrapper) {
@@ -237,6 +243,37 @@ pub fn c15_case(cfg: &Cfg, rep: &mut Report, case_seed: u64, cli: &str, dir: &Pa
             return;
         }
         let mut pos = 0;
+        if counter {
+            // `ModelCounts { cmodels: X, models: Y } ` per statement in printing order; the ratio must be exact
+            let Some(first) = lines.first() else {
+                rep.violation("cli-counter-line-missing", format!("{:?}: no output", args), replay);
+                return;
+            };
+            let nums: Vec<u128> = first
+                .split(|c: char| !c.is_ascii_digit())
+                .filter(|t| !t.is_empty())
+                .filter_map(|t| t.parse().ok())
+                .collect();
+            if !first.starts_with("ModelCounts") || nums.len() != 2 * case.g.n {
+                rep.violation("cli-counter-line-shape", format!("{:?}: first line {:?}", args, first), replay);
+                return;
+            }
+            for (j, (o, label)) in names_in_order.iter().enumerate() {
+                let (c, m) = (nums[2 * j], nums[2 * j + 1]);
+                let sat = case.sem.tt[*o].count_ones() as u128;
+                let unsat = (1u128 << case.g.n) - sat;
+                rep.count("cli_model_counts_checked", 1);
+                if c + m == 0 || m * unsat != c * sat {
+                    rep.violation(
+                        "cli-counter-ratio",
+                        format!("{:?}: statement {:?} counted (cmodels {}, models {}) but {} of {} assignments satisfy its condition", args, label, c, m, sat, 1u128 << case.g.n),
+                        replay,
+                    );
+                    return;
+                }
+            }
+            pos += 1;
+        }
         if flags.contains(&"--grd") {
             let want = line(&grounded);
             if lines.get(pos) != Some(&want.as_str()) {
